@@ -15,7 +15,7 @@ func init() {
 	mc.Register(&mc.Property{
 		ID:    "C17",
 		Level: "exploration",
-		Rule: "E1 bounded-exhaustive enumeration: the C16 key sets (every non-empty sorted subset of the suffix-key universes behind each stem) × every maxSize in [1, len+1]. Oracle, clause by clause from the statement: boundaries start at 0, strictly increase and end at len; every shard holds ≤ maxSize keys; L[j] is the byte length of the longest common prefix of the shard computed by direct comparison (the key's own length for a single key); shard prefixes strictly ascending. " +
+		Rule: "E1 bounded-exhaustive enumeration: the C16 key sets (every non-empty sorted subset of the suffix-key universes behind each stem) × every maxSize in [1, len+1]; plus two key sets of 1111 and 4161 keys with 25 maxSize values around powers of two. Oracle, clause by clause from the statement: boundaries start at 0, strictly increase and end at len; every shard holds ≤ maxSize keys; L[j] is the byte length of the longest common prefix of the shard computed by direct comparison (the key's own length for a single key); shard prefixes strictly ascending. " +
 			"A case is one call; non-trivial when the set has ≥3 keys and maxSize < len; key sets that re-occur in a later family are executed again but counted once.",
 		Assumptions: []string{"key sets are drawn from small byte alphabets behind fixed stems"},
 		Run:         c17Run,
@@ -75,6 +75,19 @@ func c17Verdict(keys []string, max int32, L, B []int32) string {
 	return ""
 }
 
+// c17BigSizes: the maxSize values used on key sets of a thousand and more keys.
+func c17BigSizes(n int) []int32 {
+	seen := map[int32]bool{}
+	var out []int32
+	for _, v := range []int{1, 2, 3, 4, 7, 8, 9, 15, 16, 17, 31, 32, 33, 63, 64, 65, 255, 256, 257, 1023, 1024, 1025, n - 1, n, n + 1} {
+		if v >= 1 && v <= n+1 && !seen[int32(v)] {
+			seen[int32(v)] = true
+			out = append(out, int32(v))
+		}
+	}
+	return out
+}
+
 func c17Run(c *mc.Ctx) {
 	fams := c16Families(c)
 	shards := c16Shards(fams)
@@ -84,7 +97,11 @@ func c17Run(c *mc.Ctx) {
 			if !f.hasSize(k) {
 				continue
 			}
-			c.Expect(binom(n, k) * int64(len(f.stems)) * int64(k+1))
+			if f.c17Only {
+				c.Expect(int64(len(f.stems)) * int64(len(c17BigSizes(k))))
+			} else {
+				c.Expect(binom(n, k) * int64(len(f.stems)) * int64(k+1))
+			}
 		}
 	}
 	c.Par(len(shards), func(si int) {
@@ -108,7 +125,14 @@ func c17Run(c *mc.Ctx) {
 			}
 			n := int32(len(keys))
 			dup := c16Dup(fams, sh.fam, sh.stem, ix)
-			for max := int32(1); max <= n+1; max++ {
+			sizes := c17BigSizes(int(n))
+			if !f.c17Only {
+				sizes = sizes[:0]
+				for max := int32(1); max <= n+1; max++ {
+					sizes = append(sizes, max)
+				}
+			}
+			for _, max := range sizes {
 				L, B, p := shardByPrefix(keys, max)
 				v := p
 				if p == "" {
